@@ -503,7 +503,7 @@ async function execute(spec, classes, trace) {
         if (W.violation) break;
         W.pendingCall = { abi: methodAbi(m), method: m, self: selfH ? selfH.ent : null, args: entArgs, arm: op.arm, noneMask: op.noneMask || 0 };
         W.lastReturn = null;
-        const r = doCall(() => (m.special === "constructor" ? new classes[m.owner](...jsArgs) : m.special === "getter" ? selfH.w[m.name] : m.static ? classes[m.owner][m.name](...jsArgs) : selfH.w[m.name](...jsArgs)));
+        const r = doCall(() => (m.special === "constructor" ? new classes[m.owner](...jsArgs) : m.special === "getter" ? selfH.w[m.name] : m.special === "iterator" ? ((it) => (it.done ? null : it.value))(selfH.w.next()) : m.static ? classes[m.owner][m.name](...jsArgs) : selfH.w[m.name](...jsArgs)));
         if (m.special) inc("special_method_" + m.special);
         W.pendingCall = null;
         if (r.err && W.lastReturnIsErr && W.lastReturn && r.err.cause && typeof r.err.cause === "object") {
